@@ -51,3 +51,8 @@ Proof.
   split; [apply hull_ok_sound; exact H1|]. split; [lia | apply pts_eqb_eq; exact H3].
 Qed.
 
+
+Lemma sublists_self {A} (l : list A) : In l (sublists l).
+Proof. induction l as [|x t IH]; cbn; [left; reflexivity|]. apply in_or_app. left. apply in_map. exact IH. Qed.
+Example sweep_hyp_ex : In (grid 3 4) (sublists (grid 3 4)) /\ In 5 (slacks 13) /\ length (grid 3 4) = 12%nat.
+Proof. split; [apply sublists_self|]. split; [cbn; tauto | reflexivity]. Qed.
